@@ -46,18 +46,19 @@ namespace
         static const char *c09_name() { return "Custom{i16,string}"; }
     };
 
-    typedef TL<i8, i16, i32, i64, u8, u16, u32, u64, f32, f64, str> L0;
+    typedef TL<i8, i16, i32, i64, u8, u16, u32, u64, f32, f64, ld, str> L0;
     typedef TL<std::pair<u8, i32>, std::pair<str, u16>, std::pair<f64, str>, std::pair<i64, i8>, //
                std::tuple<i8>, TIDS, std::tuple<u16, u16, u16, u16>, std::tuple<str, str>,        //
                std::map<u8, u8>, std::map<str, i32>, std::map<i32, str>, std::map<u16, f32>, std::map<str, str>, //
-               RPad, RStr, RDbl, RSIS, Plain, Custom>
+               RPad, RStr, RDbl, RSIS, Plain, Custom, //
+               std::pair<ld, i32>, std::tuple<u8, ld, u16>, Rec<ld, u8>, std::map<u8, ld>, DefaultedO, DefaultedN>
         L1x;
     typedef Cat<VecOf<L0>::type, L1x>::type L1;
     typedef TL<std::pair<std::vector<u16>, std::vector<str>>, std::pair<str, std::vector<u16>>, std::pair<RPad, std::map<u8, u8>>, //
                std::tuple<std::vector<u8>, str, std::pair<u8, i32>>, std::tuple<std::map<str, i32>, RStr>,                      //
                std::map<str, std::vector<u16>>, std::map<i32, std::vector<u16>>, std::map<str, TIDS>, std::map<u8, std::pair<str, u16>>,
                std::map<u16, RPad>, std::map<std::pair<u8, u8>, str>, std::map<std::vector<u8>, u8>, //
-               Rec<std::vector<u16>, str>, Rec<RPad, u8>, Rec<std::pair<str, u16>, std::map<u8, u8>>, Rec<TIDS>, Rec<Plain, i8>, std::map<u8, Custom>, Rec<Custom, u8>>
+               Rec<std::vector<u16>, str>, Rec<RPad, u8>, Rec<std::pair<str, u16>, std::map<u8, u8>>, Rec<TIDS>, Rec<Plain, i8>, std::map<u8, Custom>, Rec<Custom, u8>, std::map<u8, DefaultedO>, Rec<DefaultedO, str>>
         L2x;
     typedef Cat<VecOf<L1>::type, L2x>::type L2;
     typedef TL<std::vector<std::vector<std::vector<u8>>>, std::vector<std::vector<std::vector<i32>>>, std::vector<std::vector<std::vector<str>>>,
@@ -83,14 +84,15 @@ namespace
         return (const char *)reader.pointer() - p;
     }
 
-    template <class T> void check_value(const T &v, const T &w, const std::string &tn, const std::string &cls, const char *what)
+    template <class T>
+    void check_value(const T &v, const T &w, const std::vector<T> &receivers, const std::string &tn, const std::string &cls, const char *what)
     {
-        std::string ref;
-        ref_enc(ref, v);
+        std::string ref, mask;
+        ref_enc(ref, v, &mask);
         mc::crash_context("C09.old.serialize.%s", cls.c_str());
         std::string enc = igris::serialize(v);
         mc::outcome(mc::fmt("%s/len%zu", tn.c_str(), enc.size()));
-        bool layout_ok = enc == ref;
+        bool layout_ok = same_layout(enc, ref, mask);
         if (!layout_ok)
             mc::violation("C09.old.layout." + cls,
                           "%s %s: serialize() gives %zu bytes %s, the stated layout (native scalars, u16 count + elements) gives %zu bytes %s",
@@ -120,9 +122,31 @@ namespace
             mc::crash_context("C09.old.buffer_writer.%s", cls.c_str());
             igris::archive::binary_buffer_writer wr(e.p, e.n);
             igris::serialize(wr, v);
-            if (wr.ptr != e.p + e.n || memcmp(e.p, ref.data(), e.n) != 0)
+            if (wr.ptr != e.p + e.n || !same_layout(e.p, e.n, ref, mask))
                 mc::violation("C09.old.buffer_writer." + cls, "%s %s: binary_buffer_writer wrote %ld bytes %s, want %zu bytes %s", tn.c_str(), what,
                               (long)(wr.ptr - e.p), mc::hex(e.p, e.n < 40 ? e.n : 40).c_str(), ref.size(), hexs(ref, 40).c_str());
+        }
+        {
+            // decode in place into an object that already holds a DIFFERENT value: the result is v, nothing of
+            // the old content survives (strings shrink, containers are replaced, not appended to)
+            Exact e(enc.data(), enc.size());
+            for (const T &old : receivers)
+            {
+                T r = old;
+                mc::crash_context("C09.old.decode_inplace.%s", cls.c_str());
+                long used = decode(e.p, e.n, r);
+                if (!eq(r, v) || used != (long)enc.size())
+                {
+                    std::string oref;
+                    ref_enc(oref, old);
+                    mc::violation("C09.old.inplace." + cls, "%s %s: decoding %s (%zu bytes) into an object holding the value %s (%zu bytes): result %s, consumed %ld",
+                                  tn.c_str(), what, hexs(enc, 32).c_str(), enc.size(), hexs(oref, 32).c_str(), oref.size(),
+                                  eq(r, v) ? "ok" : "is NOT the encoded value", used);
+                    break;
+                }
+            }
+            mc::more_cases(receivers.size(), receivers.size());
+            mc::count("inplace_decodes", (long)receivers.size());
         }
         if (!layout_ok)
         {
@@ -166,7 +190,10 @@ namespace
             mc::describe("old %s value #%ld/%ld stated-layout bytes %s (%zu)", tn.c_str(), i, n, hexs(ref).c_str(), ref.size());
             if (!is_scalar_v<T> && ref.size() > 2)
                 mc::nontrivial();
-            check_value(v, w, tn, cls, mc::fmt("value #%ld", i).c_str());
+            std::vector<T> receivers;
+            for (long j : receiver_indices(i, n))
+                receivers.push_back(make<T>(0, j));
+            check_value(v, w, receivers, tn, cls, mc::fmt("value #%ld", i).c_str());
         }
     };
 
@@ -180,9 +207,34 @@ namespace
         std::string tn = tname<std::vector<T>>();
         mc::describe("old %s with %d elements (%zu payload bytes)", tn.c_str(), N, (size_t)N * sizeof(T));
         mc::nontrivial();
-        check_value(v, w, tn, (size_t)N * sizeof(T) > 65535 ? std::string("vector_of_arithmetic.image_over_65535_bytes")
+        std::vector<std::vector<T>> receivers = {w, std::vector<T>(N < 65535 ? N + 1 : N, scalar_value<T>(1))};
+        check_value(v, w, receivers, tn, (size_t)N * sizeof(T) > 65535 ? std::string("vector_of_arithmetic.image_over_65535_bytes")
                                                              : std::string("vector_of_arithmetic"),
                     mc::fmt("%d elements", N).c_str());
+    }
+    // ---- big maps: counts above 32767 (the sign bit of the 16-bit count) up to the largest count --------
+    template <int N> void big_map_run(int, int)
+    {
+        typedef std::map<u16, u8> M;
+        M v, w, full;
+        for (int k = 0; k < N; k++)
+            v[(u16)(65535 - k)] = (u8)(k * 7 + 1); // the N largest keys
+        w[(u16)3] = 4;
+        for (int k = 0; k < 65535; k++)
+            full[(u16)k] = (u8)(k + 1);
+        std::string tn = tname<M>();
+        mc::describe("old %s with %d entries", tn.c_str(), N);
+        mc::nontrivial();
+        std::vector<M> receivers = {w, full};
+        check_value(v, w, receivers, tn, "map", mc::fmt("%d entries", N).c_str());
+    }
+    template <int N> void add_big_map()
+    {
+        BigEntry b;
+        b.name = mc::fmt("map<u16,u8> x %d", N);
+        b.chunks = 1;
+        b.run = &big_map_run<N>;
+        bigs().push_back(b);
     }
     template <class T, int N> void add_big()
     {
@@ -201,7 +253,11 @@ namespace
         mc::crash_context("C09.old.golden");
         std::string enc = igris::serialize(v);
         mc::outcome(std::string("golden/") + name);
-        if (enc != bytes)
+        std::string ref, mask;
+        ref_enc(ref, v, &mask); // only for the positions of padding bytes inside scalar images
+        if (mask.size() != bytes.size())
+            mask.assign(bytes.size(), '1');
+        if (!same_layout(enc, bytes, mask))
             mc::violation("C09.old.golden.encode", "%s: serialize gives %s, recorded %s", name, hexs(enc, 64).c_str(), hexs(bytes, 64).c_str());
         Exact e(bytes.data(), bytes.size());
         T r{};
@@ -319,6 +375,11 @@ MC_INIT
     add_big<u64, 8192>(); // 65536 bytes
     add_big<f64, 20000>();
     add_big<u32, 65535>();
+    add_big<ld, 4096>(); // 65536 bytes
+    add_big_map<32767>();
+    add_big_map<32768>();
+    add_big_map<40000>();
+    add_big_map<65535>();
 
     goldens().push_back({"i32 0x01020304", [] { golden<i32>("i32 0x01020304", 0x01020304, B("\x04\x03\x02\x01")); }});
     goldens().push_back({"u64", [] { golden<u64>("u64 0x0102030405060708", 0x0102030405060708ull, B("\x08\x07\x06\x05\x04\x03\x02\x01")); }});
@@ -341,6 +402,22 @@ MC_INIT
     goldens().push_back({"Plain", [] { golden<Plain>("Plain{34,83,17,0.5}", Plain(), B("\x22\x00\x00\x00\x53\x11\x00\x00\x00\x00\x00\x00\x00\xe0\x3f")); }});
     goldens().push_back({"vector<string>{\"ab\",\"\"}", [] {
                              golden<std::vector<str>>("vector<string>{\"ab\",\"\"}", {"ab", ""}, B("\x02\x00\x02\x00\x61\x62\x00\x00"));
+                         }});
+    goldens().push_back({"long double 1.0", [] {
+                             golden<ld>("long double 1.0 (6 padding bytes not compared)", 1.0L,
+                                        B("\x00\x00\x00\x00\x00\x00\x00\x80\xff\x3f\x00\x00\x00\x00\x00\x00"));
+                         }});
+    goldens().push_back({"pair<long double,i32>", [] {
+                             golden<std::pair<ld, i32>>("pair<long double,i32>{-2.0,5}", {-2.0L, 5},
+                                                        B("\x00\x00\x00\x00\x00\x00\x00\x80\x00\xc0\x00\x00\x00\x00\x00\x00\x05\x00\x00\x00"));
+                         }});
+    goldens().push_back({"Defaulted pump", [] {
+                             DefaultedO d;
+                             d.name = "pump";
+                             d.v = {9};
+                             d.m = {};
+                             d.x = 1;
+                             golden<DefaultedO>("Defaulted{\"pump\",{9},{},1}", d, B("\x04\x00pump\x01\x00\x09\x00\x00\x00\x01\x00\x00\x00"));
                          }});
     goldens().push_back({"Custom", [] {
                              Custom c;
